@@ -10,8 +10,8 @@ model's algorithm is used. The clauses are `Prop`s with executable `Bool` twins 
 * `TopoOrder`  (b) in the concatenation of the passes every producer of an input of an operator comes before that operator
                    (= the pass list is a topological order of the quotient graph and a pass is in dataflow order);
 * `PassShape`  (c) an NPU pass has at most one main operator (MAC / elementwise main / Memcpy) and it comes first, every other
-                   operator is activation-like (`npu_post_ops` / `npu_post_fuse_limited_ops`, at most one of the latter), all run
-                   on the NPU; every operator but the last is fused into a later operator of the pass over a tensor that
+                   operator is activation-like (`npu_post_ops` / `npu_post_fuse_limited_ops`, at most one of the latter and
+                   none behind a main operator), all run on the NPU; every operator but the last is fused into a later operator of the pass over a tensor that
                    nobody else reads (`SafeFuse`: the `can_pack` conditions, stated here as the conditions under which executing
                    producer and consumer as one operation cannot be observed); a CPU pass is one operator.
 * `WF`         the well-formedness of a graph description that the theorems about the model assume (checked on every real graph).
@@ -30,6 +30,9 @@ structure SPass where
   deriving Repr, DecidableEq
 
 def flat (ps : List SPass) : List Nat := ps.flatMap (·.ops)
+
+/-- a pass of the model (or of the real pass list, which the harness renders in the same form) as the Spec sees it -/
+def toSpec (p : Pass) : SPass := ⟨p.ops, p.created, p.placement.code, p.inputs, p.outputs⟩
 
 /-! ## (a) -/
 
@@ -97,6 +100,8 @@ def npuShapeB (G : Graph) (p : SPass) : Bool :=
   mains.length ≤ 1 && mains.all (fun o => p.ops.head? == some o) && (!p.created || mains.isEmpty) &&
   p.ops.all (fun o => isMainType (G.op o).type || isPostType (G.op o).type) &&
   (p.ops.filter fun o => isLimitedType (G.op o).type).length ≤ 1 &&
+  -- TANH / SIGMOID / QUANTIZE are not fused behind a main operator
+  (mains.isEmpty || (p.ops.filter fun o => isLimitedType (G.op o).type).isEmpty) &&
   p.ops.all (fun o => (G.op o).runOnNpu) &&
   (!(p.ops.any fun o => (G.op o).type == opMemcpy) || p.ops.length == 1)
 
